@@ -958,16 +958,17 @@ def run(tier="quick", seed=0, jobs=None):
         t0 = time.time()
     try:
         if tier == "quick":
-            b = dict(A_nodes=3, A_depth=2, A_keys=["a", "b"], A_scalars="None,True,1,'a'",
+            b = dict(A_nodes=3, A_depth=2, A_keys=["a", "b"], A_scalars="None,True,1,'1'", A2=None,
                      C_values="small", C_maxlen=2, C_fields=["a", "b"],
                      B_nodes=4, B_depth=3, B_keys=["a", 1], B_scalars="None,1", B_stride=7,
                      D_random=1200, K_maxlen=1)
-            a_scal, c_vals, b_scal = (None, True, 1, "a"), "small", (None, 1)
+            a_scal, c_vals, b_scal = (None, True, 1, "1"), "small", (None, 1)
             ini_stride = 23
         elif tier == "thorough":
             b = dict(A_nodes=4, A_depth=3, A_keys=["a", "b"], A_scalars="None,True,1",
+                     A2="plus trees(<=3 nodes, depth<=2) over scalars None,True,1,'1','a'",
                      C_values="1,2,None", C_maxlen=2, C_fields=["a", "b"],
-                     B_nodes=5, B_depth=3, B_keys=["a", 1], B_scalars="None,1", B_stride=1,
+                     B_nodes=5, B_depth=3, B_keys=["a", 1], B_scalars="None,1", B_stride=2,
                      D_random=30000, K_maxlen=2)
             a_scal, c_vals, b_scal = (None, True, 1), (1, 2, None), (None, 1)
             ini_stride = 101
@@ -976,6 +977,8 @@ def run(tier="quick", seed=0, jobs=None):
 
         # A: all ordered pairs of small documents
         a_t = gen.trees(b["A_nodes"], b["A_depth"], keys=tuple(b["A_keys"]), scalars=a_scal)
+        if b["A2"]:
+            a_t = a_t + gen.trees(3, 2, keys=tuple(b["A_keys"]), scalars=(None, True, 1, "1", "a"))
         nA = _load_pool("A", a_t)
         b["A_documents"] = nA
         for r in harness.pmap_chunks(_w_allpairs, range(nA), jobs, chunk=max(1, nA // (jobs * 6)),
